@@ -1,4 +1,5 @@
 import PyxisVerif.Props.C14
+import PyxisVerif.Props.CaseLift2
 import PyxisVerif.Props.CaseLift
 #print axioms PyxisVerif.C14.files_per_module
 #print axioms PyxisVerif.C14.file_name
@@ -10,3 +11,8 @@ import PyxisVerif.Props.CaseLift
 #print axioms PyxisVerif.C14.vftable_clash_rejected
 #print axioms PyxisVerif.C14.vftable_item_path
 #print axioms PyxisVerif.CaseLift.case_files_items
+#print axioms PyxisVerif.C14.case_files_per_module
+#print axioms PyxisVerif.C14.case_only_defined_emitted
+#print axioms PyxisVerif.C14.case_defPaths_nodup
+#print axioms PyxisVerif.C14.case_every_item_in_its_file
+#print axioms PyxisVerif.C14.case_every_item_in_its_file_refuted
